@@ -10,11 +10,15 @@
    collector of its destination with such a deadline (WorldDeadline), and a completed run leaves no collector whose
    deadline was due (WorldDone).  Together with C15_timeout_sends_collected this is the "in time, exactly once, in
    order" chain link by link.
-   NOT proved as ONE statement: the trace-level composition (the bytes in the out trace of a whole run decode to
-   exactly the queued entries per destination); that composition is what the correspondence and the extracted
-   check_C15 decide on every run. *)
+   And over WHOLE RUNS of the full stack, for every scenario and schedule (Proofs/WorldLog.v, by a ghost history of
+   queue requests and hand-overs that every callback is proved to keep consistent): per destination,
+       entries handed over for transmission so far ++ entries pending in the open collector = entries queued so far
+   - nothing lost, duplicated, reordered or moved to another destination; a collector's timeout runs at most once.
+   NOT proved as ONE statement: that the BYTES in the out trace decode to the handed-over entries (that link is C02 /
+   C08_id_and_flag_on_the_wire per transmission) and the per-entry deadline over the history; both are decided on every
+   run by the correspondence and the extracted check_C15. *)
 From PS Require Import Lib.Base Generated.Consts Model.SdTypes Model.Config Model.Session Model.StackTypes Model.Stack
-  Model.StackIO Spec.AnnSpec Proofs.QueueProofs Proofs.WorldInv Proofs.WorldTime Proofs.WorldDone Proofs.WorldDeadline.
+  Model.StackIO Spec.AnnSpec Proofs.QueueProofs Proofs.WorldInv Proofs.WorldTime Proofs.WorldDone Proofs.WorldDeadline Proofs.WorldLog.
 
 Theorem C15_conservation : forall ops s d, QInv s ->
   sent_for d (snd (q_run s ops)) ++ pending_for (fst (q_run s ops)) d = pending_for s d ++ queued_for d ops.
@@ -101,6 +105,33 @@ Proof.
   replace w' with (fst (run fuel events t_end rv w)) by (rewrite Hrun; reflexivity). apply G_run. exact Hg.
 Qed.
 
+(* conservation over whole runs of the stack: every reachable state of every scenario, whatever the schedule *)
+Theorem C15_conservation_on_the_stack : forall s sc, d_scenario s = Some sc ->
+  let w := fst (run_scenario sc) in
+  forall d, log_flushed d (glog w) ++ w_pending w d = log_queued d (glog w).
+Proof. exact reachable_conservation. Qed.
+Theorem C15_exactly_once_in_order_on_the_stack : forall s sc, d_scenario s = Some sc ->
+  let w := fst (run_scenario sc) in
+  forall d, open_collector w d = None -> log_flushed d (glog w) = log_queued d (glog w).
+Proof. exact reachable_exactly_once_in_order. Qed.
+(* the invariant behind it is kept by every callback that is not a timer expiry / collector timeout, by queue_send, by
+   a collector's timeout when its handle is popped, hence by every step of the loop *)
+Theorem C15_history_invariant_kept_by_queue_send : forall X e d w, GP X w -> Kinv w -> Kinv (queue_send e d w).
+Proof. exact K_queue_send. Qed.
+Theorem C15_history_invariant_kept_by_a_collector_timeout : forall w tid c r, G w -> Kinv w ->
+  ready w = (Some tid, HCollector c) :: r -> Kinv (collector_timeout c (set_ready r w)).
+Proof. exact K_collector_fire. Qed.
+Theorem C15_history_invariant_kept_by_every_loop_step : forall w, GGK [] w -> GGK [] (lstep1 w).
+Proof. exact GGK_lstep1. Qed.
+Theorem C15_history_invariant_kept_by_every_run : forall fuel events t_end rv w,
+  Forall (fun e => soon_ok (snd e) = true) events -> GGK [] w -> GGK [] (fst (run fuel events t_end rv w)).
+Proof. exact GGK_run. Qed.
+(* what is logged: send_sd records the (flag, id) it was given with the entries it transmits *)
+Theorem C15_hand_over_is_transmitted : forall e es d w,
+  exists f i, glog (send_sd (e :: es) d w) = (now w, GSend (e :: es) d f i) :: glog w
+              /\ fst (assign_outgoing (sess w) d) = (f, i).
+Proof. exact send_sd_log. Qed.
+
 (* non-vacuity of the checker's domain restriction: an ordinary offer entry is encodable, one with a 17-bit instance id is not *)
 Example C15_unencodable_examples :
   unencodable (mkEntry ET_OfferService 4369 1 1 3 7 [] [] None) = false
@@ -108,6 +139,13 @@ Example C15_unencodable_examples :
 Proof. vm_compute. split; reflexivity. Qed.
 
 Print Assumptions C15_conservation.
+Print Assumptions C15_conservation_on_the_stack.
+Print Assumptions C15_exactly_once_in_order_on_the_stack.
+Print Assumptions C15_history_invariant_kept_by_queue_send.
+Print Assumptions C15_history_invariant_kept_by_a_collector_timeout.
+Print Assumptions C15_history_invariant_kept_by_every_loop_step.
+Print Assumptions C15_history_invariant_kept_by_every_run.
+Print Assumptions C15_hand_over_is_transmitted.
 Print Assumptions C15_open_collectors_flush_within_the_timeout.
 Print Assumptions C15_queued_entry_has_a_deadline.
 Print Assumptions C15_deadline_bound_kept_by_every_callback.
